@@ -32,22 +32,34 @@ func chartWithCRD(v int, withHook, withCRD bool) *chart.Chart {
 	return c
 }
 
-// prepareHistory brings the world to one of: empty, 1:deployed, 1:deployed 2:failed, 1:uninstalled (kept)
+// historyHooks: the charts of the revisions prepareHistory stores carry a hook
+// for every lifecycle event (rollback and uninstall run the STORED hooks)
+var historyHooks bool
+
+// prepareHistory brings the world to one of: empty, 1:deployed, 1:deployed 2:failed,
+// 1:uninstalled (kept), 1:superseded 2:deployed
 func prepareHistory(w *world, shape int) {
 	if shape == 0 {
 		return
 	}
 	inst := NewInstall(w.config())
 	inst.ReleaseName, inst.Namespace = relName, "default"
-	if _, err := inst.Run(mkChart(0, false), map[string]interface{}{}); err != nil {
+	if _, err := inst.Run(mkChart(0, historyHooks), map[string]interface{}{}); err != nil {
 		vFail("setup/install")
+	}
+	if shape == 4 {
+		up := NewUpgrade(w.config())
+		up.Namespace = "default"
+		if _, err := up.Run(relName, mkChart(1, historyHooks), map[string]interface{}{}); err != nil {
+			vFail("setup/upgrade")
+		}
 	}
 	if shape == 2 {
 		w.f.budget, w.f.kinds = 1, "kube"
 		w.f.forceSite = "kube.Update"
 		up := NewUpgrade(w.config())
 		up.Namespace = "default"
-		if _, err := up.Run(relName, mkChart(1, false), map[string]interface{}{}); err == nil {
+		if _, err := up.Run(relName, mkChart(1, historyHooks), map[string]interface{}{}); err == nil {
 			vFail("setup/upgrade-should-fail")
 		}
 		w.f.budget, w.f.forceSite = 0, ""
@@ -63,8 +75,10 @@ func prepareHistory(w *world, shape int) {
 
 func H06DryRun() {
 	w := newWorld(newFaultPlan(0, 0, "both"))
-	shape := ndChoice("history", 4)
+	shape := ndChoice("history", 5)
+	historyHooks = ndBool("historyHooks")
 	prepareHistory(w, shape)
+	historyHooks = false
 	before := histString(w.history())
 	clusterBefore := len(w.kube.cluster)
 	w.kube.log, w.kube.writes, w.store.writes = nil, nil, nil
